@@ -155,6 +155,22 @@ func runC20(c *Ctx) {
 			}
 		}
 		c.obF("R20.1", f, s.what+"-has-interception", nWrites >= 2, "the handler serves its document", fmt.Sprintf("%d response writes", nWrites))
+		// the document's content type REPLACES whatever the response already carries (Header.Set): a value merely added
+		// behind one an outer handler left there is not the one clients read
+		for _, ci := range callsIn(f, "(net/http.Header).Add") {
+			_, args := callArgs(ci.Common())
+			if k, isK := constString(args[0]); isK && strings.EqualFold(k, "Content-Type") {
+				c.obD("R20.1", ci, s.what+"-content-type-set-not-added", false, "the served document's Content-Type is written with Header.Set", "Content-Type is written with Header.Add: an existing value stays in front")
+			}
+		}
+		nSetCT := 0
+		for _, ci := range callsIn(f, "(net/http.Header).Set") {
+			_, args := callArgs(ci.Common())
+			if k, isK := constString(args[0]); isK && strings.EqualFold(k, "Content-Type") && guardedBy(ci, nil, intercept) {
+				nSetCT++
+			}
+		}
+		c.obRF("R20.1", f, s.what+"-sets-content-type", nSetCT >= 1, "the handler sets the Content-Type of the document it serves", fmt.Sprintf("%d Header.Set", nSetCT))
 		if s.what == "spec" {
 			for _, ci := range callsIn(f, "(net/http.ResponseWriter).Write") {
 				if !guardedBy(ci, nil, intercept) {
@@ -337,6 +353,46 @@ func runC20(c *Ctx) {
 					return okk
 				}))
 			}
+			if !okDoc {
+				// the option left out when there is no document name (WithSpecDocument("") is a no-op, checked below): the
+				// slice is nil on the paths where doc == "" and append(…, WithSpecDocument(doc)) otherwise
+				isDoc := vOrigins(oCall(1, "path.Split"))
+				var judge func(v ssa.Value, pred, blk *ssa.BasicBlock, d int) bool
+				judge = func(v ssa.Value, pred, blk *ssa.BasicBlock, d int) bool {
+					if phi, isPhi := v.(*ssa.Phi); isPhi && d < 3 {
+						for i, e := range phi.Edges {
+							if !judge(e, phi.Block().Preds[i], phi.Block(), d+1) {
+								return false
+							}
+						}
+						return true
+					}
+					if isNilConst(v) {
+						return pred != nil && edgeGuarded(pred, blk, pr, factEqString(isDoc, "", true))
+					}
+					ap := asCall(v)
+					if ap == nil || calleeName(&ap.Call) != "builtin append" {
+						return false
+					}
+					elems, isLit := sliceLitElems(ap.Call.Args[1])
+					if !isLit || len(elems) != 1 {
+						return false
+					}
+					okW, _ := allOrigins(elems[0], oCallWhere(-1, "rt/middleware.WithSpecDocument", func(w *ssa.Call) bool { return isDoc(w.Call.Args[0]) }))
+					okBase, _ := allOrigins(ap.Call.Args[0], oNil())
+					return okW && okBase
+				}
+				if judge(r.Results[2], nil, nil, 0) {
+					// premise: WithSpecDocument("") changes nothing
+					noop := false
+					for _, lit := range anonFuncsDeep(p.Fn("rt/middleware.WithSpecDocument")) {
+						for _, st := range fieldStores(lit, "rt/middleware.specOptions", "Document") {
+							noop = guardedBy(st, nil, factEqString(func(v ssa.Value) bool { return true }, "", false))
+						}
+					}
+					okDoc = noop
+				}
+			}
 			c.obI("R20.3", r, "returns-doc-option", okDoc, "the spec option returned names the document part of the SpecURL path", "")
 		}
 	}
@@ -413,6 +469,24 @@ func runC20(c *Ctx) {
 				}
 			}
 			c.obI("R20.3", st, field+"-verbatim", okV, "the "+field+" the UI references / the spec is served under is the configured value, verbatim (never rewritten: the spec route and the page are derived from the very same string)", why)
+		}
+	}
+	// the common defaults (base path, path, spec URL, title) are applied on EVERY path of each flavour's defaulting: no
+	// "already defaulted" shortcut keyed on flavour-specific fields skips them
+	for _, fn := range []string{"(*rt/middleware.RedocOpts).EnsureDefaults", "(*rt/middleware.RapiDocOpts).EnsureDefaults", "(*rt/middleware.SwaggerUIOpts).ensureDefaults"} {
+		f := p.Fn(fn)
+		commons := callsIn(f, "(*rt/middleware.uiOptions).EnsureDefaults")
+		backs := callsIn(f, "rt/middleware.fromCommonToAnyOptions")
+		c.obRF("R20.3", f, "applies-common-defaults", len(commons) >= 1 && len(backs) >= 1, "the flavour's defaulting applies the common UI defaults and copies them back", fmt.Sprintf("%d/%d", len(commons), len(backs)))
+		if len(commons) == 0 || len(backs) == 0 {
+			continue
+		}
+		var both []ssa.Instruction
+		for _, b := range backs {
+			both = append(both, b)
+		}
+		for _, r := range realReturns(f) {
+			c.obI("R20.3", r, "common-defaults-on-every-path", !pathExists(f, nil, r, nil, isOneOf(both...)), "every exit of the flavour's defaulting lies behind the common defaults having been applied and copied back", "the defaulting can return without the common defaults (path, spec URL, title …)")
 		}
 	}
 	c.obRF("R20.3", p.Fn("(*rt/middleware.uiOptions).EnsureDefaults"), "SpecURL-writers", nSU >= 2, "writers of SpecURL found (option setter and default)", fmt.Sprintf("%d", nSU))
